@@ -80,6 +80,7 @@ public:
             assert(!data.empty());
             data.push_back(data.back());
         }
+        size_t size() const { return data.size(); }
     };
 
 protected:
@@ -91,6 +92,9 @@ protected:
 
     /** Frame stack. */
     std::stack<frame_t> frames;
+
+    /** Heights of the three stacks when the current piece of text began. */
+    size_t fragmentsMark{0}, typeFragmentsMark{0}, framesMark{0};
 
     /** Pointer to the document under construction. */
     Document& document;
@@ -138,6 +142,9 @@ public:
     void add_position(uint32_t position, uint32_t offset, uint32_t line, std::shared_ptr<std::string> path) override;
 
     void handle_error(const TypeException&) override;
+
+    void parse_begin() override;
+    void parse_end(bool failed) override;
     void handle_warning(const TypeException&) override;
     void type_duplicate() override;
     void type_pop() override;
